@@ -7,6 +7,9 @@ open ZnVerif.Properties.C18
 #print axioms push_keeps_call_sites
 #print axioms pop_removes_returned_call
 #print axioms unwind_drops_failed_calls
+#print axioms call_frame_starts_unstarted
+#print axioms unstarted_frame_not_listed
+#print axioms native_is_per_frame
 
 -- chain of active calls (Properties/C18Chain.lean)
 #print axioms ZnVerif.Properties.C18Chain.ext_means
@@ -14,6 +17,14 @@ open ZnVerif.Properties.C18
 #print axioms ZnVerif.Properties.C18Chain.call_sites_untouched
 #print axioms ZnVerif.Properties.C18Chain.depth_never_drops
 #print axioms ZnVerif.Properties.C18Chain.failed_call_keeps_its_frame
+-- who writes the line marker (after the fixes e514e52, a251a86, d0d2970)
+#print axioms ZnVerif.Properties.C18Chain.expression_leaves_frames_untouched
+#print axioms ZnVerif.Properties.C18Chain.while_condition_error_at_loop_line
+#print axioms ZnVerif.Properties.C18Chain.declaration_error_at_declaration_line
+#print axioms ZnVerif.Properties.C18Chain.started_frame_stays_started
+#print axioms ZnVerif.Properties.C18Chain.statement_marks_frame_started
+#print axioms ZnVerif.Properties.C18Chain.arity_error_frame_unstarted
+#print axioms ZnVerif.Properties.C18Chain.not_a_method_frame_unstarted
 
 -- syntax-error part: line table of the lexer, quoted line and caret of the error printer
 #print axioms ZnVerif.Properties.C18Lines.lines_table_partial
